@@ -73,6 +73,7 @@ from apischema.utils import (
     is_hashable,
     is_union_of,
     literal_values,
+    replace_builtins,
 )
 from apischema.visitor import Unsupported
 
@@ -766,23 +767,6 @@ def serialization_schema(
     )
 
 
-def _defs_schema(
-    types: TypesWithConversion,
-    default_conversion: DefaultConversion,
-    builder: Type[SchemaBuilder],
-    ref_factory: RefFactory,
-    all_refs: bool,
-    additional_properties: bool,
-) -> Mapping[str, JsonSchema]:
-    return _refs_schema(
-        builder,
-        default_conversion,
-        _extract_refs(types, default_conversion, builder, all_refs),
-        ref_factory,
-        additional_properties,
-    )
-
-
 def _set_missing_properties(
     schema: JsonSchema, properties: Optional[Mapping[str, JsonSchema]], key: str
 ) -> JsonSchema:
@@ -862,20 +846,28 @@ def definitions_schema(
     if default_serialization is None:
         default_serialization = settings.serialization.default_conversion
     version, ref_factory, all_refs = _default_version(version, ref_factory, all_refs)
-    deserialization_schemas = _defs_schema(
-        deserialization,
-        default_deserialization,
+    deserialization_refs = _extract_refs(
+        deserialization, default_deserialization, DeserializationSchemaBuilder, all_refs
+    )
+    serialization_refs = _extract_refs(
+        serialization, default_serialization, SerializationSchemaBuilder, all_refs
+    )
+    for ref in deserialization_refs.keys() & serialization_refs.keys():
+        tp1, tp2 = deserialization_refs[ref], serialization_refs[ref]
+        if replace_builtins(tp1) != replace_builtins(tp2):
+            raise ValueError(f"Types {tp1} and {tp2} share same reference '{ref}'")
+    deserialization_schemas = _refs_schema(
         DeserializationSchemaBuilder,
+        default_deserialization,
+        deserialization_refs,
         ref_factory,
-        all_refs,
         additional_properties,
     )
-    serialization_schemas = _defs_schema(
-        serialization,
-        default_serialization,
+    serialization_schemas = _refs_schema(
         SerializationSchemaBuilder,
+        default_serialization,
+        serialization_refs,
         ref_factory,
-        all_refs,
         additional_properties,
     )
     schemas = {}
